@@ -11,6 +11,12 @@ package contractcourt
 //   R2  the number of blocks needed is not compared (the property promises
 //       the outcome, not the timing): a restarted execution gets up to six
 //       more blocks than the reference used;
+//   R5  a publish or sweep request that the uninterrupted run never made is
+//       counted, not judged (the statement speaks of stages skipped, contracts,
+//       upstream resolutions and the resolved mark); a MISSING one is judged;
+//   R6  an uninterrupted run that already issues contradictory upstream
+//       resolutions (C12's dust fail-back finding) is not judged here; a
+//       contradiction that only the restarted execution shows is;
 //   R4  the report of the anchor resolver is not compared: that resolver is
 //       not a contract of the log (no resolver key, never persisted,
 //       re-created at every start); whether it sees its sweep before the
